@@ -1,0 +1,460 @@
+//go:build verif
+
+package ssh
+
+// Verification hooks (build tag verif). This file only adds exported
+// wrappers around unexported machinery so that an external harness can
+// observe and drive it; it changes no existing behaviour.
+
+import (
+	"crypto"
+	"errors"
+	"io"
+	"math/big"
+	"net"
+
+	"golang.org/x/crypto/ssh/internal/bcrypt_pbkdf"
+)
+
+// ---- packet-level access ----------------------------------------------------
+
+// VerifPacketConn is the exported mirror of packetConn.
+type VerifPacketConn interface {
+	WritePacket(packet []byte) error
+	ReadPacket() ([]byte, error)
+	Close() error
+}
+
+type verifPCIn struct{ c VerifPacketConn }
+
+func (a verifPCIn) writePacket(p []byte) error  { return a.c.WritePacket(p) }
+func (a verifPCIn) readPacket() ([]byte, error) { return a.c.ReadPacket() }
+func (a verifPCIn) Close() error                { return a.c.Close() }
+
+// ---- tap on the keyingTransport boundary ------------------------------------
+
+// VerifTap observes the plaintext packets that cross the boundary between
+// handshakeTransport and transport. Callbacks run synchronously in the
+// goroutine that performs the operation (they may sleep or yield to perturb
+// the schedule). Any callback may be nil.
+type VerifTap struct {
+	// BeforeWrite is called before a packet is handed to the transport.
+	// seq is the transport's outgoing sequence number for this packet.
+	BeforeWrite func(seq uint32, packet []byte)
+	// AfterWrite is called after transport.writePacket returned.
+	AfterWrite func(seq uint32, packet []byte, err error)
+	// BeforeRead is called before the transport is asked for a packet.
+	BeforeRead func()
+	// AfterRead is called with the packet the transport returned. seq is the
+	// sequence number the packet was received with.
+	AfterRead func(seq uint32, packet []byte, err error)
+	// KeyChange is called from prepareKeyChange with the negotiated
+	// algorithms and the key exchange result.
+	KeyChange func(algs NegotiatedAlgorithms, k VerifKexResult)
+}
+
+type verifTapTransport struct {
+	*transport
+	tap *VerifTap
+}
+
+func (t *verifTapTransport) writePacket(p []byte) error {
+	seq := t.transport.writer.seqNum
+	var cp []byte
+	if t.tap.BeforeWrite != nil || t.tap.AfterWrite != nil {
+		cp = append([]byte(nil), p...) // the cipher may scramble p
+	}
+	if t.tap.BeforeWrite != nil {
+		t.tap.BeforeWrite(seq, cp)
+	}
+	err := t.transport.writePacket(p)
+	if t.tap.AfterWrite != nil {
+		t.tap.AfterWrite(seq, cp, err)
+	}
+	return err
+}
+
+func (t *verifTapTransport) readPacket() ([]byte, error) {
+	if t.tap.BeforeRead != nil {
+		t.tap.BeforeRead()
+	}
+	p, err := t.transport.readPacket()
+	if t.tap.AfterRead != nil {
+		seq := t.transport.reader.seqNum - 1
+		if err == nil && len(p) > 0 && p[0] == msgNewKeys && t.transport.strictMode {
+			seq = ^uint32(0) // counter was reset by this packet; value before reset unknown here
+		}
+		t.tap.AfterRead(seq, append([]byte(nil), p...), err)
+	}
+	return p, err
+}
+
+func (t *verifTapTransport) prepareKeyChange(algs *NegotiatedAlgorithms, r *kexResult) error {
+	if t.tap.KeyChange != nil {
+		t.tap.KeyChange(*algs, verifExportKex(r))
+	}
+	return t.transport.prepareKeyChange(algs, r)
+}
+
+func verifWrap(tr *transport, tap *VerifTap) keyingTransport {
+	if tap == nil {
+		return tr
+	}
+	return &verifTapTransport{transport: tr, tap: tap}
+}
+
+// VerifKexResult is the exported mirror of kexResult.
+type VerifKexResult struct {
+	H, K, HostKey, Signature, SessionID []byte
+	Hash                                crypto.Hash
+}
+
+func verifExportKex(r *kexResult) VerifKexResult {
+	d := func(b []byte) []byte { return append([]byte(nil), b...) }
+	return VerifKexResult{H: d(r.H), K: d(r.K), HostKey: d(r.HostKey), Signature: d(r.Signature), SessionID: d(r.SessionID), Hash: r.Hash}
+}
+
+// ---- tapped full connections -------------------------------------------------
+
+// VerifNewClientConn is NewClientConn with a tap inserted below the
+// handshakeTransport. The prologue repeats clientHandshake; authentication and
+// the mux are the real ones.
+func VerifNewClientConn(c net.Conn, addr string, config *ClientConfig, tap *VerifTap) (Conn, <-chan NewChannel, <-chan *Request, error) {
+	fullConf := *config
+	fullConf.SetDefaults()
+	if fullConf.HostKeyCallback == nil {
+		c.Close()
+		return nil, nil, nil, errors.New("ssh: must specify HostKeyCallback")
+	}
+	conn := &connection{sshConn: sshConn{conn: c, user: fullConf.User}}
+	ht, err := verifClientTransport(conn, addr, &fullConf, tap)
+	if err == nil {
+		_ = ht
+		err = conn.clientAuthenticate(&fullConf)
+	}
+	if err != nil {
+		c.Close()
+		return nil, nil, nil, err
+	}
+	conn.mux = newMux(conn.transport)
+	return conn, conn.mux.incomingChannels, conn.mux.incomingRequests, nil
+}
+
+func verifClientTransport(conn *connection, addr string, config *ClientConfig, tap *VerifTap) (*handshakeTransport, error) {
+	if config.ClientVersion != "" {
+		conn.clientVersion = []byte(config.ClientVersion)
+	} else {
+		conn.clientVersion = []byte(packageVersion)
+	}
+	var err error
+	conn.serverVersion, err = exchangeVersions(conn.sshConn.conn, conn.clientVersion)
+	if err != nil {
+		return nil, err
+	}
+	ht := newClientTransport(
+		verifWrap(newTransport(conn.sshConn.conn, config.Rand, true), tap),
+		conn.clientVersion, conn.serverVersion, config, addr, conn.sshConn.RemoteAddr())
+	conn.transport = ht
+	if err := ht.waitSession(); err != nil {
+		return nil, err
+	}
+	conn.sessionID = ht.getSessionID()
+	conn.algorithms = ht.getAlgorithms()
+	return ht, nil
+}
+
+func verifServerConfig(config *ServerConfig) (*ServerConfig, error) {
+	fullConf := *config
+	fullConf.SetDefaults()
+	if fullConf.MaxAuthTries == 0 {
+		fullConf.MaxAuthTries = 6
+	}
+	if len(fullConf.PublicKeyAuthAlgorithms) == 0 {
+		fullConf.PublicKeyAuthAlgorithms = defaultPubKeyAuthAlgos
+	}
+	if len(fullConf.hostKeys) == 0 {
+		return nil, errors.New("ssh: server has no host keys")
+	}
+	return &fullConf, nil
+}
+
+func verifServerTransport(s *connection, config *ServerConfig, tap *VerifTap) (*handshakeTransport, error) {
+	if config.ServerVersion != "" {
+		s.serverVersion = []byte(config.ServerVersion)
+	} else {
+		s.serverVersion = []byte(packageVersion)
+	}
+	var err error
+	s.clientVersion, err = exchangeVersions(s.sshConn.conn, s.serverVersion)
+	if err != nil {
+		return nil, err
+	}
+	tr := newTransport(s.sshConn.conn, config.Rand, false)
+	ht := newServerTransport(verifWrap(tr, tap), s.clientVersion, s.serverVersion, config)
+	s.transport = ht
+	if err := ht.waitSession(); err != nil {
+		return nil, err
+	}
+	s.sessionID = ht.getSessionID()
+	s.algorithms = ht.getAlgorithms()
+	return ht, nil
+}
+
+// VerifNewServerConn is NewServerConn with a tap inserted below the
+// handshakeTransport. The prologue repeats serverHandshake; authentication and
+// the mux are the real ones.
+func VerifNewServerConn(c net.Conn, config *ServerConfig, tap *VerifTap) (*ServerConn, <-chan NewChannel, <-chan *Request, error) {
+	fullConf, err := verifServerConfig(config)
+	if err != nil {
+		c.Close()
+		return nil, nil, nil, err
+	}
+	s := &connection{sshConn: sshConn{conn: c}}
+	perms, err := func() (*Permissions, error) {
+		if _, err := verifServerTransport(s, fullConf, tap); err != nil {
+			return nil, err
+		}
+		packet, err := s.transport.readPacket()
+		if err != nil {
+			return nil, err
+		}
+		var serviceRequest serviceRequestMsg
+		if err = Unmarshal(packet, &serviceRequest); err != nil {
+			return nil, err
+		}
+		if serviceRequest.Service != serviceUserAuth {
+			return nil, errors.New("ssh: requested service '" + serviceRequest.Service + "' before authenticating")
+		}
+		if err := s.transport.writePacket(Marshal(&serviceAcceptMsg{Service: serviceUserAuth})); err != nil {
+			return nil, err
+		}
+		return s.serverAuthenticate(fullConf)
+	}()
+	if err != nil {
+		c.Close()
+		return nil, nil, nil, err
+	}
+	s.mux = newMux(s.transport)
+	return &ServerConn{s, perms}, s.mux.incomingChannels, s.mux.incomingRequests, nil
+}
+
+// ---- raw endpoints: real transport + key exchange, harness speaks above it ----
+
+// VerifRaw is a connection that stopped after the first key exchange: the
+// harness reads and writes plaintext packets through the real
+// handshakeTransport (thread-safe writePacket, re-keying) and the real
+// transport (packet protection).
+type VerifRaw struct {
+	ht   *handshakeTransport
+	conn *connection
+}
+
+// VerifRawClient runs version exchange and the first key exchange as a client.
+func VerifRawClient(c net.Conn, addr string, config *ClientConfig, tap *VerifTap) (*VerifRaw, error) {
+	fullConf := *config
+	fullConf.SetDefaults()
+	if fullConf.HostKeyCallback == nil {
+		return nil, errors.New("ssh: must specify HostKeyCallback")
+	}
+	conn := &connection{sshConn: sshConn{conn: c, user: fullConf.User}}
+	ht, err := verifClientTransport(conn, addr, &fullConf, tap)
+	if err != nil {
+		return nil, err
+	}
+	return &VerifRaw{ht: ht, conn: conn}, nil
+}
+
+// VerifRawServer runs version exchange and the first key exchange as a server.
+func VerifRawServer(c net.Conn, config *ServerConfig, tap *VerifTap) (*VerifRaw, error) {
+	fullConf, err := verifServerConfig(config)
+	if err != nil {
+		return nil, err
+	}
+	s := &connection{sshConn: sshConn{conn: c}}
+	ht, err := verifServerTransport(s, fullConf, tap)
+	if err != nil {
+		return nil, err
+	}
+	return &VerifRaw{ht: ht, conn: s}, nil
+}
+
+func (r *VerifRaw) WritePacket(p []byte) error       { return r.ht.writePacket(p) }
+func (r *VerifRaw) ReadPacket() ([]byte, error)      { return r.ht.readPacket() }
+func (r *VerifRaw) Close() error                     { return r.ht.Close() }
+func (r *VerifRaw) SessionID() []byte                { return r.ht.getSessionID() }
+func (r *VerifRaw) Algorithms() NegotiatedAlgorithms { return r.ht.getAlgorithms() }
+func (r *VerifRaw) RequestKeyExchange()              { r.ht.requestKeyExchange() }
+func (r *VerifRaw) ClientVersion() []byte            { return r.conn.clientVersion }
+func (r *VerifRaw) ServerVersion() []byte            { return r.conn.serverVersion }
+
+// ---- a real mux over a harness transport --------------------------------------
+
+// VerifMux is a real mux running over a harness-provided packet transport.
+type VerifMux struct{ m *mux }
+
+func VerifNewMux(pc VerifPacketConn) *VerifMux { return &VerifMux{newMux(verifPCIn{pc})} }
+
+func (v *VerifMux) OpenChannel(name string, data []byte) (Channel, <-chan *Request, error) {
+	return v.m.OpenChannel(name, data)
+}
+func (v *VerifMux) SendRequest(name string, wantReply bool, payload []byte) (bool, []byte, error) {
+	return v.m.SendRequest(name, wantReply, payload)
+}
+func (v *VerifMux) IncomingChannels() <-chan NewChannel { return v.m.incomingChannels }
+func (v *VerifMux) IncomingRequests() <-chan *Request   { return v.m.incomingRequests }
+func (v *VerifMux) Wait() error                         { return v.m.Wait() }
+func (v *VerifMux) Close() error                        { return v.m.Close() }
+
+// ---- packet ciphers -----------------------------------------------------------
+
+// VerifPacketCipher is one direction of packet protection built by the real
+// newPacketCipher (including RFC 4253 key derivation).
+type VerifPacketCipher struct{ pc packetCipher }
+
+// VerifNewPacketCipher derives keys from (K, H, sessionID, hash) and builds the
+// packet cipher for the client-to-server (clientToServer=true) or
+// server-to-client direction.
+func VerifNewPacketCipher(cipher, mac string, clientToServer bool, k VerifKexResult) (*VerifPacketCipher, error) {
+	d := serverKeys
+	if clientToServer {
+		d = clientKeys
+	}
+	if !aeadCiphers[cipher] && macModes[mac] == nil {
+		return nil, errors.New("unsupported mac")
+	}
+	pc, err := newPacketCipher(d, DirectionAlgorithms{Cipher: cipher, MAC: mac, compression: compressionNone},
+		&kexResult{H: k.H, K: k.K, SessionID: k.SessionID, Hash: k.Hash})
+	if err != nil {
+		return nil, err
+	}
+	return &VerifPacketCipher{pc}, nil
+}
+
+func (c *VerifPacketCipher) WritePacket(seq uint32, w io.Writer, rand io.Reader, payload []byte) error {
+	return c.pc.writeCipherPacket(seq, w, rand, payload)
+}
+func (c *VerifPacketCipher) ReadPacket(seq uint32, r io.Reader) ([]byte, error) {
+	return c.pc.readCipherPacket(seq, r)
+}
+
+// VerifCipherNames lists every cipher mode the package can instantiate.
+func VerifCipherNames() []string {
+	var l []string
+	for n := range cipherModes {
+		l = append(l, n)
+	}
+	return l
+}
+
+// VerifMACNames lists every MAC mode the package can instantiate.
+func VerifMACNames() []string {
+	var l []string
+	for n := range macModes {
+		l = append(l, n)
+	}
+	return l
+}
+
+// VerifIsAEAD reports whether the cipher ignores the MAC.
+func VerifIsAEAD(cipher string) bool { return aeadCiphers[cipher] }
+
+// VerifMaxPacket is the package's maxPacket.
+const VerifMaxPacket = maxPacket
+
+// ---- negotiation --------------------------------------------------------------
+
+// VerifKexInit mirrors the name-lists of kexInitMsg.
+type VerifKexInit struct {
+	KexAlgos, ServerHostKeyAlgos                     []string
+	CiphersClientServer, CiphersServerClient         []string
+	MACsClientServer, MACsServerClient               []string
+	CompressionClientServer, CompressionServerClient []string
+}
+
+func (k VerifKexInit) msg() *kexInitMsg {
+	return &kexInitMsg{KexAlgos: k.KexAlgos, ServerHostKeyAlgos: k.ServerHostKeyAlgos,
+		CiphersClientServer: k.CiphersClientServer, CiphersServerClient: k.CiphersServerClient,
+		MACsClientServer: k.MACsClientServer, MACsServerClient: k.MACsServerClient,
+		CompressionClientServer: k.CompressionClientServer, CompressionServerClient: k.CompressionServerClient}
+}
+
+// VerifFindAgreedAlgorithms calls findAgreedAlgorithms.
+func VerifFindAgreedAlgorithms(isClient bool, client, server VerifKexInit) (*NegotiatedAlgorithms, error) {
+	return findAgreedAlgorithms(isClient, client.msg(), server.msg())
+}
+
+// ---- key exchange -------------------------------------------------------------
+
+// VerifKexNames lists the registered key exchange methods.
+func VerifKexNames() []string {
+	var l []string
+	for n := range kexAlgoMap {
+		l = append(l, n)
+	}
+	return l
+}
+
+// VerifMagics mirrors handshakeMagics.
+type VerifMagics struct{ ClientVersion, ServerVersion, ClientKexInit, ServerKexInit []byte }
+
+func (m VerifMagics) in() *handshakeMagics {
+	return &handshakeMagics{clientVersion: m.ClientVersion, serverVersion: m.ServerVersion, clientKexInit: m.ClientKexInit, serverKexInit: m.ServerKexInit}
+}
+
+// VerifKexClient runs the client side of the named key exchange over pc.
+func VerifKexClient(name string, pc VerifPacketConn, rand io.Reader, magics VerifMagics) (*VerifKexResult, error) {
+	k, ok := kexAlgoMap[name]
+	if !ok {
+		return nil, errors.New("unknown kex")
+	}
+	r, err := k.Client(verifPCIn{pc}, rand, magics.in())
+	if err != nil {
+		return nil, err
+	}
+	e := verifExportKex(r)
+	return &e, nil
+}
+
+// VerifKexServer runs the server side of the named key exchange over pc.
+func VerifKexServer(name string, pc VerifPacketConn, rand io.Reader, magics VerifMagics, signer Signer, algo string) (*VerifKexResult, error) {
+	k, ok := kexAlgoMap[name]
+	if !ok {
+		return nil, errors.New("unknown kex")
+	}
+	as, ok := signer.(AlgorithmSigner)
+	if !ok {
+		return nil, errors.New("signer is not an AlgorithmSigner")
+	}
+	r, err := k.Server(verifPCIn{pc}, rand, magics.in(), as, algo)
+	if err != nil {
+		return nil, err
+	}
+	e := verifExportKex(r)
+	return &e, nil
+}
+
+// VerifVerifyHostKeySignature calls verifyHostKeySignature.
+func VerifVerifyHostKeySignature(hostKey PublicKey, algo string, r *VerifKexResult) error {
+	return verifyHostKeySignature(hostKey, algo, &kexResult{H: r.H, K: r.K, HostKey: r.HostKey, Signature: r.Signature, Hash: r.Hash, SessionID: r.SessionID})
+}
+
+// VerifChooseDH calls chooseDH.
+func VerifChooseDH(min, preferred, max uint32) (*big.Int, error) {
+	return chooseDH(kexDHGexRequestMsg{MinBits: min, PreferredBits: preferred, MaxBits: max})
+}
+
+// VerifDHGroupSizes lists the bit sizes of the groups chooseDH knows.
+func VerifDHGroupSizes() []int {
+	var l []int
+	for _, g := range supportedDHKEXGroups() {
+		l = append(l, g.size)
+	}
+	return l
+}
+
+// ---- misc re-exports ------------------------------------------------------------
+
+// VerifBcryptPBKDF re-exports ssh/internal/bcrypt_pbkdf.Key.
+func VerifBcryptPBKDF(password, salt []byte, rounds, keyLen int) ([]byte, error) {
+	return bcrypt_pbkdf.Key(password, salt, rounds, keyLen)
+}
